@@ -226,7 +226,9 @@ func allInputs() []Input {
 	for _, f := range []struct {
 		s string
 		f float64
-	}{{"0.0", 0}, {"1.0", 1}, {"2.5", 2.5}, {"-1.5", -1.5}, {"9007199254740992.0", float64(two53)}} {
+	}{{"0.0", 0}, {"1.0", 1}, {"2.5", 2.5}, {"-1.5", -1.5}, {"9007199254740992.0", float64(two53)},
+		// fractions below one (a detour through an integer truncates them to zero) and magnitudes no int64 holds
+		{"0.5", 0.5}, {"-0.5", -0.5}, {"0.001", 0.001}, {"1e300", 1e300}, {"-1e300", -1e300}} {
 		add("float:"+f.s, f.s, vFloat(f.f))
 	}
 	// strings
